@@ -329,3 +329,16 @@ func PanicKey(v any, stack []byte) (key string, site string) {
 	}
 	return "panic|?|?|" + PanicClass(v), ""
 }
+
+// ReadJSON loads a replay file.
+func ReadJSON(path string, v any) {
+	b, err := os.ReadFile(path)
+	if err != nil {
+		fmt.Fprintln(os.Stderr, err)
+		os.Exit(2)
+	}
+	if err := json.Unmarshal(b, v); err != nil {
+		fmt.Fprintln(os.Stderr, err)
+		os.Exit(2)
+	}
+}
